@@ -61,6 +61,35 @@ func c14Case(c *core.Ctx, idx int) {
 		rec.Violation("descriptor", fmt.Sprintf("the Descriptor does not mirror the type definition [%s]: %s\n  type %s", tc.name, diff, typeString(tc.typ)), map[string]any{"type": typeString(tc.typ)})
 		return
 	}
+	// the same type through a second instance whose registration for time.Time differs (the BigQuery
+	// codec): a Descriptor mirrors the codecs of the instance it was asked from, not those of the
+	// instance that happened to describe the type first
+	{
+		cfg2 := tc.cfg
+		cfg2.Plain = map[reflect.Type]model.Special{model.TimeT: model.SpBQTime}
+		if cfg2.Validate(tc.typ, "") == "" {
+			p2 := instNew(cfg2)
+			if c2, err := p2.CodecForType(tc.typ); err == nil {
+				var d2 plenccodec.Descriptor
+				if pn := core.Guard(func() { d2 = c2.Descriptor() }); pn != "" {
+					rec.Violation("descriptor-panic", pn, nil)
+					return
+				}
+				rec.Eval(1)
+				if diff := model.DescDiff(cfg2.Describe(tc.typ, ""), realDesc{&d2}, "$", true); diff != "" {
+					rec.Violation("descriptor", fmt.Sprintf("the Descriptor obtained from a second instance (time.Time registered with the BigQuery timestamp codec) does not mirror that instance's codecs [%s]: %s\n  type %s", tc.name, diff, typeString(tc.typ)), map[string]any{"type": typeString(tc.typ)})
+					return
+				}
+				// and asking the first instance again still gives its own descriptor
+				d1 := codec.Descriptor()
+				if diff := model.DescDiff(want, realDesc{&d1}, "$", true); diff != "" {
+					rec.Violation("descriptor", fmt.Sprintf("after another instance described the same type, the first instance's Descriptor changed [%s]: %s\n  type %s", tc.name, diff, typeString(tc.typ)), nil)
+					return
+				}
+				rec.Count("second_instance_descriptors", 1)
+			}
+		}
+	}
 	n := countDesc(&d)
 	rec.Count("descriptor_nodes", n)
 	if n > 2 {
